@@ -574,6 +574,21 @@ func (r *renderer) ind(d int) {
 	}
 }
 
+// BadLines returns the lines (1-based) of the rendered text on which an injected defect (an unknown / misplaced /
+// ill-formed directive use) stands; empty when the text holds none.
+func BadLines(text string) []int {
+	var out []int
+	for ln, line := range strings.Split(text, "\n") {
+		for _, bt := range badText {
+			if strings.Contains(line, strings.TrimSpace(bt)) {
+				out = append(out, ln+1)
+				break
+			}
+		}
+	}
+	return out
+}
+
 var badText = map[string]string{
 	"unknown_dir":     " @nope",
 	"misplaced_dir":   " @deprecated",
